@@ -2032,6 +2032,9 @@ func (r *Runtime) toValue(i interface{}, origValue reflect.Value) Value {
 
 func (r *Runtime) wrapReflectFunc(value reflect.Value) func(FunctionCall) Value {
 	return func(call FunctionCall) Value {
+		if value.IsNil() {
+			panic(r.NewTypeError("Cannot call a nil Go function"))
+		}
 		typ := value.Type()
 		nargs := typ.NumIn()
 		var in []reflect.Value
